@@ -2045,6 +2045,22 @@ package flags
 // C19: the tag attributes of a field become the option's public model
 // ===================================================================
 
+// The bodies of the two tag accessors (their callers keep the assumed, pure contracts above): Get answers with
+// the LAST value of a repeated key - what the scan recorded, in order - or the empty text; GetMany with all of them.
+//@ assumed func (x *multiTag) cached() (m map[string][]string)
+//@   pure
+//@   ensures !isnil(m)
+// (trusted: the scan records at least one value under every key it records, Set stores exactly one)
+//@   ensures forall(k, string, indom(m, k) ==> len(m[k]) > 0)
+//@ body func (x *multiTag) Get(key string) (r string)
+//@   props C19 C04
+//@   requires x != nil
+//@   ensures[C19] indom(x.cached(), key) && len(x.cached()[key]) > 0 ==> r == x.cached()[key][len(x.cached()[key])-1]
+//@   ensures[C19] !indom(x.cached(), key) ==> r == ""
+//@ body func (x *multiTag) GetMany(key string) (r []string)
+//@   props C19 C04
+//@   requires x != nil
+//@   ensures[C19] same(r, x.cached()[key])
 //@ assumed func (x *multiTag) GetMany(key string) (r []string)
 //@   pure
 // (trusted: whether a tag text scans is a function of the text - multiTag.scan, which is verified, is what Parse runs)
